@@ -6,6 +6,7 @@ import (
 	"strconv"
 
 	"github.com/graphql-go/graphql/language/ast"
+	"github.com/graphql-go/graphql/language/printer"
 )
 
 // normalizeDocument walks the given operation in `doc`, replacing
@@ -79,6 +80,13 @@ func normalizeDocument(schema *Schema, doc *ast.Document, operationName string) 
 		schema:    schema,
 		synthArgs: map[string]interface{}{},
 		newVarDefs: nil,
+		taken:     map[string]bool{},
+		byLiteral: map[string]string{},
+	}
+	for _, vd := range op.VariableDefinitions {
+		if vd != nil && vd.Variable != nil && vd.Variable.Name != nil {
+			ctx.taken[vd.Variable.Name.Value] = true
+		}
 	}
 
 	newOp := cloneOperation(op)
@@ -135,6 +143,7 @@ func fingerprintDocument(doc *ast.Document, op *ast.OperationDefinition, operati
 	w.writeString(operationName)
 	w.writeByte(0)
 	w.writeVariableDefs(op.VariableDefinitions)
+	w.writeDirectives(op.Directives)
 	w.writeSelectionSet(op.SelectionSet)
 	return strconv.FormatUint(h.Sum64(), 16)
 }
@@ -172,6 +181,11 @@ func (w *fingerprintWriter) writeVariableDefs(defs []*ast.VariableDefinition) {
 		w.writeString(d.Variable.Name.Value)
 		w.writeByte(':')
 		w.writeType(d.Type)
+		if d.DefaultValue != nil {
+			// the default decides the response when the variable is not given
+			w.writeByte('=')
+			w.writeValue(d.DefaultValue)
+		}
 		w.writeByte(',')
 	}
 	w.writeByte(')')
@@ -190,6 +204,29 @@ func (w *fingerprintWriter) writeType(t ast.Type) {
 		if tt != nil && tt.Name != nil {
 			w.writeString(tt.Name.Value)
 		}
+	}
+}
+
+// writeDirectives hashes directives with their argument values: @skip / @include
+// (and any custom directive) change what a document means.
+func (w *fingerprintWriter) writeDirectives(ds []*ast.Directive) {
+	for _, d := range ds {
+		if d == nil || d.Name == nil {
+			continue
+		}
+		w.writeByte('@')
+		w.writeString(d.Name.Value)
+		w.writeByte('(')
+		for _, a := range d.Arguments {
+			if a == nil || a.Name == nil {
+				continue
+			}
+			w.writeString(a.Name.Value)
+			w.writeByte('=')
+			w.writeValue(a.Value)
+			w.writeByte(',')
+		}
+		w.writeByte(')')
 	}
 }
 
@@ -221,6 +258,7 @@ func (w *fingerprintWriter) writeSelectionSet(sel *ast.SelectionSet) {
 				}
 				w.writeByte(')')
 			}
+			w.writeDirectives(s.Directives)
 			w.writeSelectionSet(s.SelectionSet)
 			w.writeByte(';')
 		case *ast.InlineFragment:
@@ -228,12 +266,14 @@ func (w *fingerprintWriter) writeSelectionSet(sel *ast.SelectionSet) {
 			if s.TypeCondition != nil && s.TypeCondition.Name != nil {
 				w.writeString(s.TypeCondition.Name.Value)
 			}
+			w.writeDirectives(s.Directives)
 			w.writeSelectionSet(s.SelectionSet)
 			w.writeByte(';')
 		case *ast.FragmentSpread:
 			w.writeString("...")
 			if s.Name != nil {
 				w.writeString(s.Name.Value)
+				w.writeDirectives(s.Directives)
 				w.writeByte(';')
 				w.writeFragmentBody(s.Name.Value)
 			}
@@ -258,6 +298,7 @@ func (w *fingerprintWriter) writeFragmentBody(name string) {
 	if frag.TypeCondition != nil && frag.TypeCondition.Name != nil {
 		w.writeString(frag.TypeCondition.Name.Value)
 	}
+	w.writeDirectives(frag.Directives)
 	w.writeSelectionSet(frag.SelectionSet)
 }
 
@@ -282,7 +323,10 @@ func (w *fingerprintWriter) writeValue(v ast.Value) {
 		w.writeByte('f')
 		w.writeString(n.Value)
 	case *ast.StringValue:
+		// length-prefixed: the content may contain any of the separators used here
 		w.writeByte('s')
+		w.writeString(strconv.Itoa(len(n.Value)))
+		w.writeByte(':')
 		w.writeString(n.Value)
 	case *ast.BooleanValue:
 		w.writeByte('b')
@@ -323,12 +367,54 @@ type normCtx struct {
 	counter    int
 	synthArgs  map[string]interface{}
 	newVarDefs []*ast.VariableDefinition
+
+	// taken holds the variable names the operation defines itself; byLiteral maps
+	// (type, literal text) to the synthetic variable already created for it, so that
+	// identical arguments of fields that will be merged stay identical.
+	taken     map[string]bool
+	byLiteral map[string]string
 }
 
 func (c *normCtx) nextName() string {
-	n := fmt.Sprintf("__pcv%d", c.counter)
-	c.counter++
-	return n
+	for {
+		n := fmt.Sprintf("__pcv%d", c.counter)
+		c.counter++
+		if !c.taken[n] {
+			return n
+		}
+	}
+}
+
+// extractable reports whether a literal of this type can be handed back as a
+// variable value. The synthetic value is the literal's external (JSON-like) form,
+// which variable coercion turns into the same internal value literal coercion
+// yields for the built-in scalars, enums and input objects made of them; a custom
+// scalar may treat literals and variable values differently, so it stays in the text.
+func extractable(t Input, seen map[*InputObject]bool) bool {
+	switch tt := t.(type) {
+	case *NonNull:
+		inner, ok := tt.OfType.(Input)
+		return ok && extractable(inner, seen)
+	case *List:
+		inner, ok := tt.OfType.(Input)
+		return ok && extractable(inner, seen)
+	case *Scalar:
+		return tt == Int || tt == Float || tt == String || tt == Boolean || tt == ID
+	case *Enum:
+		return true
+	case *InputObject:
+		if seen[tt] {
+			return true
+		}
+		seen[tt] = true
+		for _, f := range tt.Fields() {
+			if !extractable(f.Type, seen) {
+				return false
+			}
+		}
+		return true
+	}
+	return false
 }
 
 // normalizeSelectionSet walks selections under the given parent type.
@@ -417,6 +503,9 @@ func (c *normCtx) tryExtract(value ast.Value, expected Input) (ast.Value, bool) 
 	if expected == nil {
 		return value, false
 	}
+	if !extractable(expected, map[*InputObject]bool{}) {
+		return value, false
+	}
 	// Coerce literal once at extract time. We pass nil variableValues
 	// because we already know the value tree contains no variables.
 	coerced := valueFromAST(value, expected, nil)
@@ -427,13 +516,61 @@ func (c *normCtx) tryExtract(value ast.Value, expected Input) (ast.Value, bool) 
 		// downstream error against the original literal.
 		return value, false
 	}
+	litKey := fmt.Sprintf("%v\x00%v", expected, printer.Print(value))
+	if name, ok := c.byLiteral[litKey]; ok {
+		return ast.NewVariable(&ast.Variable{Name: ast.NewName(&ast.Name{Value: name})}), true
+	}
 	name := c.nextName()
-	c.synthArgs[name] = coerced
+	c.byLiteral[litKey] = name
+	// the external form, not `coerced`: ExecutePlan coerces variable values again
+	// (an enum's internal value, for one, is not a legal variable value)
+	c.synthArgs[name] = untypedValue(value)
 	c.newVarDefs = append(c.newVarDefs, ast.NewVariableDefinition(&ast.VariableDefinition{
 		Variable: ast.NewVariable(&ast.Variable{Name: ast.NewName(&ast.Name{Value: name})}),
 		Type:     typeASTFromGoType(expected),
 	}))
 	return ast.NewVariable(&ast.Variable{Name: ast.NewName(&ast.Name{Value: name})}), true
+}
+
+// untypedValue converts a variable-free literal to the JSON-like Go value a client
+// would send for it as a variable.
+func untypedValue(v ast.Value) interface{} {
+	switch n := v.(type) {
+	case *ast.IntValue:
+		if i, err := strconv.Atoi(n.Value); err == nil {
+			return i
+		}
+		if f, err := strconv.ParseFloat(n.Value, 64); err == nil {
+			return f
+		}
+		return n.Value
+	case *ast.FloatValue:
+		if f, err := strconv.ParseFloat(n.Value, 64); err == nil {
+			return f
+		}
+		return n.Value
+	case *ast.StringValue:
+		return n.Value
+	case *ast.BooleanValue:
+		return n.Value
+	case *ast.EnumValue:
+		return n.Value
+	case *ast.ListValue:
+		out := make([]interface{}, 0, len(n.Values))
+		for _, item := range n.Values {
+			out = append(out, untypedValue(item))
+		}
+		return out
+	case *ast.ObjectValue:
+		out := make(map[string]interface{}, len(n.Fields))
+		for _, f := range n.Fields {
+			if f != nil && f.Name != nil {
+				out[f.Name.Value] = untypedValue(f.Value)
+			}
+		}
+		return out
+	}
+	return nil
 }
 
 // typeASTFromGoType maps a runtime Type to its AST form so we can
